@@ -262,7 +262,41 @@ class Gen:
         og = self.tests if group is self.trials else self.trials
         return self.lin_group(og, boundary)
 
-    VIOLATIONS = ["const", "square", "selfprod", "fn", "conj", "denom", "denom_hom", "expo", "inner_square"]
+    VIOLATIONS = ["const", "square", "selfprod", "fn", "conj", "denom", "denom_hom", "expo", "inner_square", "diag", "diag"]
+
+    def same_kind_pair(self, group):
+        """two DIFFERENT arguments of the group of the same kind (they live in the same space), or None"""
+        for k in ("s", "v"):
+            names = [n for n in group if self.kinds[n] == k]
+            if len(names) >= 2:
+                a, b = self.r.sample(names, 2)
+                return k, a, b
+        return None
+
+    def diag_violation(self, group, boundary, c, o):
+        """non-linear in the group, but the non-linear part VANISHES when the two arguments are given the same value:
+        a linearity test that replaces both arguments by the same fresh function cannot see it"""
+        r, d = self.r, self.dim
+        k, a, b = self.same_kind_pair(group)
+        neg = lambda t: mul(num(-1), t)
+        if k == "s":
+            A, B = self.sf(a), self.sf(b)
+            i = r.randrange(d)
+            return r.choice([
+                mul(c, o, add(A, neg(B)), self.lin(a, "s", boundary)),                 # (v1 - v2) * L(v1)
+                mul(c, o, add(mul(A, dd(i, B)), neg(mul(B, dd(i, A))))),               # v1 dx v2 - v2 dx v1
+                mul(c, o, pw(add(A, neg(B)), num(2))),                                 # (v1 - v2)^2
+                mul(c, o, add(mul(A, B), neg(pw(A, num(2))))),                         # v1 v2 - v1^2
+                mul(c, o, fn("sin", add(A, neg(B)))),                                  # sin(v1 - v2)
+                mul(c, o, add(op("dot", op("grad", A), op("grad", B)), neg(op("dot", op("grad", B), op("grad", B))))),
+            ])
+        A, B = self.vf(a), self.vf(b)
+        return r.choice([
+            mul(c, o, add(op("dot", A, B), neg(op("dot", A, A)))),                     # w1.w2 - w1.w1
+            mul(c, o, op("dot", add(A, neg(B)), self.vcoef(0)), op("div", A)),         # ((w1 - w2).F) div w1
+            mul(c, o, add(mul(self.comp(a, 0), op("div", B)), neg(mul(self.comp(b, 0), op("div", A))))),
+            mul(c, o, pw(op("dot", add(A, neg(B)), self.vf("A")), num(2))),
+        ])
 
     def violation(self, kind, group, boundary):
         r = self.r
@@ -270,6 +304,10 @@ class Gen:
         o = self.other(group, boundary)
         l1 = self.lin_group(group, boundary)
         l2 = self.lin_group(group, boundary)
+        if kind == "diag":
+            if self.same_kind_pair(group) is None:
+                return mul(c, o, l1, l2)
+            return self.diag_violation(group, boundary, c, o)
         if kind == "const":
             return mul(self.coef(1), o)
         if kind == "square":
@@ -309,12 +347,12 @@ class Gen:
     def case(self):
         r = self.r
         self.form = r.choice(["L", "B"])
-        shapes = r.choice([["s"], ["s"], ["v"], ["s", "v"], ["s", "s"], ["v", "s"]])
+        shapes = r.choice([["s"], ["s"], ["v"], ["s", "v"], ["s", "s"], ["v", "s"], ["s", "s"], ["v", "v"], ["s", "v", "s"]])
         self.tests = ["v", "w", "q"][: len(shapes)]
         self.kinds = {n: k for n, k in zip(self.tests, shapes)}
         self.trials = []
         if self.form == "B":
-            tshapes = r.choice([["s"], ["s"], ["v"], ["s", "v"], ["s", "s"]])
+            tshapes = r.choice([["s"], ["s"], ["v"], ["s", "v"], ["s", "s"], ["v", "v"]])
             self.trials = ["u", "p", "z"][: len(tshapes)]
             self.kinds.update({n: k for n, k in zip(self.trials, tshapes)})
         for n, k in self.kinds.items():
@@ -331,6 +369,12 @@ class Gen:
             label = r.choice(self.VIOLATIONS)
             reg = r.choice(regions)
             group = self.tests if (self.form == "L" or r.random() < 0.5) else self.trials
+            if label == "diag" and self.same_kind_pair(group) is None:
+                other = self.trials if group is self.tests else self.tests
+                if other and self.same_kind_pair(other) is not None:
+                    group = other
+                else:
+                    label = "selfprod"
             v = self.violation(label, group, reg == "boundary")
             if r.random() < 0.25:
                 integ[reg] = [v]
@@ -672,7 +716,7 @@ def main(run, replay=None):
         cases = [json.load(open(replay))["case"]]
     else:
         if corpus_f.exists():
-            corpus = json.load(open(corpus_f))[:16]
+            corpus = json.load(open(corpus_f))
         cases += [gen_case(rng, run.tier) for _ in range(n)]
 
     # the corpus runs first, one fresh interpreter per case (the exceptions of sympy's assumption system on sympde's
